@@ -110,8 +110,9 @@ def case_to_sexp(c):
 def _tree_sx(t):
     if t[0] == "sec":
         return ["sec", t[1], t[2], t[3], t[4], True if t[5] == "str" else t[5]]
-    if len(t) == 5:
-        return ["strat", t[1], t[2], [_tree_sx(k) for k in t[3]], t[4]]
+    if len(t) >= 5:
+        head = "late" if (len(t) > 5 and t[5] == "late") else "strat"        # "dict" construction is the same tree
+        return [head, t[1], t[2], [_tree_sx(k) for k in t[3]], t[4]]
     return ["strat", t[1], t[2], [_tree_sx(k) for k in t[3]]]
 
 
